@@ -13,7 +13,7 @@ warnings.simplefilter('ignore')
 
 REQUIRED = ['trueRuns_eq_pieces', 'trueRuns_append_false', 'raster_strokes', 'stroke_ends_black', 'first_closed']
 RULE = ('stream raster: random black-and-white images (1x1 .. 40x40; all white, all black, single-pixel runs, runs touching both '
-        'borders, random) in modes 1, L and RGB (pure 0/255 values) through the real RasterImage.image_to_path, for several '
+        'borders, random) in modes 1, L, RGB, RGBA and P (palettes white/black, black/white, red/black/white; pure black / white pixels) through the real RasterImage.image_to_path, for several '
         'scales, depths and speeds, including a second conversion of a differently sized image on the same object; the '
         'open-shutter strokes of RasterImage.points (maximal runs of shutter-open rows) must equal, stroke for stroke, the '
         'specification evaluated in Lean (expectedStrokes) — exactly when the grid is dyadic, else within 2^-20 relative — and '
@@ -81,6 +81,21 @@ def to_pil(img, pmode):
         for j in range(h):
             for i in range(w):
                 im.putpixel((i, j), 0 if img[j][i] else 255)
+    elif pmode.startswith('P'):
+        # palette images: a pixel is what its palette entry says, not its index
+        pal = {'P_wb': [(255, 255, 255), (0, 0, 0)], 'P_bw': [(0, 0, 0), (255, 255, 255)],
+               'P_rbw': [(255, 0, 0), (0, 0, 0), (255, 255, 255)]}[pmode]
+        black, white = pal.index((0, 0, 0)), pal.index((255, 255, 255))
+        im = Image.new('P', (w, h), white)
+        im.putpalette([c for rgb in pal for c in rgb] + [0] * (768 - 3 * len(pal)))
+        for j in range(h):
+            for i in range(w):
+                im.putpixel((i, j), black if img[j][i] else white)
+    elif pmode == 'RGBA':
+        im = Image.new('RGBA', (w, h), (255, 255, 255, 255))
+        for j in range(h):
+            for i in range(w):
+                im.putpixel((i, j), (0, 0, 0, 255) if img[j][i] else (255, 255, 255, 255))
     else:
         im = Image.new('RGB', (w, h), (255, 255, 255))
         for j in range(h):
@@ -116,7 +131,7 @@ def run(ctx):
         h = rng.choice([1, 2, 3, 5, rng.randint(1, 40 if ctx.tier == 'thorough' else 16)])
         mode = rng.choice(['rand', 'rand', 'white', 'black', 'border', 'singles'])
         img = gen_img(rng, w, h, mode)
-        pmode = rng.choice(['1', '1', 'L', 'RGB'])
+        pmode = rng.choice(['1', '1', 'L', 'RGB', 'P_wb', 'P_bw', 'P_rbw', 'RGBA'])
         prior = gen_img(rng, rng.randint(1, 6), rng.randint(1, 6), 'rand') if rng.random() < 0.15 else None
         cases.append((img, pmode, rng.choice([0.5, 0.01, 0.25, 0.04]), rng.choice([0.0, 0.5, -0.125]), rng.choice([1.0, 2.0]),
                       rng.choice([5.0, 20.0]), prior, mode))
